@@ -46,7 +46,7 @@ class GetNextTasks(Unit):
         "orquesta.conducting.WorkflowConductor.get_workflow_status",
     ]
     obligations = {
-        "C04.gnt.guard": {"props": ["C04", "C09", "C10", "C03", "C02"], "text":
+        "C04.gnt.guard": {"props": ["C04", "C09", "C10", "C03", "C02", "C12"], "text":
             "workflow not in a running status and no ready run-on-fail entry on a failed workflow => returns [] and touches nothing (no rendering, no log, no status request)"},
         "C04.gnt.remediation_only": {"props": ["C04", "C01"], "text":
             "on a failed workflow only ready run_on_fail entries are offered"},
@@ -259,7 +259,7 @@ def fresh_staged_list(e):
     f = {n: z3.Function(S.fresh_name("stg_" + n), I, srt) for n, srt in [
         ("id", I), ("route", I), ("ready", z3.BoolSort()), ("has_completed", z3.BoolSort()), ("completed", z3.BoolSort()),
         ("has_rof", z3.BoolSort()), ("rof", z3.BoolSort()), ("has_retry", z3.BoolSort()), ("has_delay", z3.BoolSort()),
-        ("delay", I)]}
+        ("delay", I), ("has_items", z3.BoolSort())]}
     m = z3.Int(S.fresh_name("n_staged"))
     e.assume(m >= 0)
 
@@ -269,6 +269,8 @@ def fresh_staged_list(e):
                 "completed": OptField(f["has_completed"](j), SBool(f["completed"](j))),
                 "run_on_fail": OptField(f["has_rof"](j), SBool(f["rof"](j))),
                 "retry": OptField(f["has_retry"](j), {"delay": OptField(f["has_delay"](j), SInt(f["delay"](j))), "count": 1}),
+                # a with-items task keeps its item records in the staged entry from its first evaluation on
+                "items": OptField(f["has_items"](j), AbstractObj("item records of the staged entry")),
                 "__idx": SInt(j)}
     return SList(m, get, "staged"), f, m
 
@@ -277,10 +279,10 @@ class GetNextTasksUnbounded(Unit):
     name = "C.get_next_tasks.unbounded"
     functions = ["orquesta.conducting.WorkflowConductor.get_next_tasks", "orquesta.conducting.WorkflowState.get_staged_tasks"]
     obligations = {
-        "C04.gnt.guard_any_state": {"props": ["C04", "C09", "C10", "C03", "C02"], "text":
+        "C04.gnt.guard_any_state": {"props": ["C04", "C09", "C10", "C03", "C02", "C12"], "text":
             "for a staged list of any length: outside the running statuses, and unless the workflow is failed with a ready run-on-fail entry, get_next_tasks returns [] without rendering, logging or requesting anything"},
         "C01.gnt.offer_justified": {"props": ["C01", "C04", "C12", "C13"], "text":
-            "for a staged list of any length, in an arbitrary loop iteration: whatever is appended to the offers is the rendering of a staged entry that is ready and not completed (and run_on_fail when the workflow is failed), carries that entry's id and route, and its delay is the entry's retry delay (or 0) when it carries a retry"},
+            "for a staged list of any length, in an arbitrary loop iteration: whatever is appended to the offers is the rendering of a staged entry that is ready and not completed (and run_on_fail when the workflow is failed), carries that entry's id and route, and its delay is the entry's retry delay (or 0) when it carries a retry - whether or not the entry already holds item records (a with-items task is re-offered with the retry delay on every query, not only the first)"},
         "C11.gnt.iteration_contained": {"props": ["C11"], "text":
             "in an arbitrary loop iteration a rendering exception is caught, logged with the entry's id and route, and marks the call as failed; after the loop a marked call requests failed and returns []"},
         "C19.gnt.sorted_any": {"props": ["C19"], "text":
